@@ -32,6 +32,8 @@ type gcSubSpec struct {
 	StartAt   int   `json:"start_at"`  // 0: before publishers start; n>0: after the n-th publish call returned (late subscribe)
 	SlowUs    int   `json:"slow_us"`
 	Drain     bool  `json:"drain"` // keep receiving after cancel/close (like the Router's range loop)
+	CancelOnHook string `json:"cancel_on_hook,omitempty"` // cancel the subscription when this hook point is first passed
+	StartOnHook  string `json:"start_on_hook,omitempty"`  // Subscribe when this hook point is first passed (StartAt is ignored)
 }
 type gcPubSpec struct {
 	Calls [][]int `json:"calls"` // each call: list of message numbers (unique per scenario)
@@ -208,9 +210,28 @@ func gcRun(rt *hookrt.Runtime, sc *gcScenario, rng *rand.Rand) {
 		subStarted[i] = make(chan struct{})
 	}
 	for i, s := range sc.Subs {
-		if s.StartAt == 0 {
+		if s.StartAt == 0 && s.StartOnHook == "" {
 			startSub(i)
 			<-subStarted[i]
+		}
+	}
+	for i, s := range sc.Subs {
+		if s.StartOnHook != "" {
+			go func(i int, point string) {
+				if decoWaitCount(rt, point, 1, 2*time.Second) {
+					startSub(i)
+				} else {
+					close(subStarted[i])
+				}
+			}(i, s.StartOnHook)
+		}
+		if s.CancelOnHook != "" {
+			go func(i int, point string) {
+				if decoWaitCount(rt, point, 1, 2*time.Second) {
+					rt.Stamp("api.cancel", fmt.Sprint(i))
+					cancels[i]()
+				}
+			}(i, s.CancelOnHook)
 		}
 	}
 	// late subscribers
@@ -219,7 +240,7 @@ func gcRun(rt *hookrt.Runtime, sc *gcScenario, rng *rand.Rand) {
 		for {
 			n := int(atomic.LoadInt32(&pubCallsDone))
 			for i, s := range sc.Subs {
-				if s.StartAt > 0 && !started[i] && n >= s.StartAt {
+				if s.StartAt > 0 && s.StartOnHook == "" && !started[i] && n >= s.StartAt {
 					started[i] = true
 					startSub(i)
 				}
@@ -436,6 +457,13 @@ func gcForce(rt *hookrt.Runtime, sc *gcScenario) {
 		rt.AddRule(&hookrt.ParkRule{Point: "gochannel.subscribe.wg_added", Nth: 2, Until: "api.close.call", Timeout: T})
 	case "publish.wait_ack x cancel":
 		rt.AddRule(&hookrt.ParkRule{Point: "gochannel.publish.wait_ack", Nth: 1, Until: "api.cancel", Timeout: T})
+	case "publish.fanout x cancel":
+		// the fan-out goroutine walks its subscriber snapshot after Publish released its locks:
+		// hold it until an earlier-registered subscription has been removed from the list
+		rt.AddRule(&hookrt.ParkRule{Point: "gochannel.publish.fanout_start", Nth: 1, Until: "gochannel.unsubscribe.wg_done", Timeout: T})
+	case "publish.wait_ack x Subscribe":
+		// a Subscribe arriving while a blocking batch Publish waits for the Ack of its first message
+		// (no park rule: the first consumer is slow (80 ms per message), the second Subscribe starts at the wait_ack hook)
 	}
 }
 
@@ -444,7 +472,7 @@ var gcForcedNames = []string{
 	"subscribe.replay x Publish", "subscribe.created x Publish", "send.wait_settle x cancel",
 	"send.before_chan x Close", "send.locked x cancel", "sub.close.before_lock x Nack",
 	"unsubscribe.before_remove x Close", "unsubscribe.wrequest x Publish", "close.signalled x Subscribe",
-	"subscribe.wg_added x Close", "publish.wait_ack x cancel",
+	"subscribe.wg_added x Close", "publish.wait_ack x cancel", "publish.fanout x cancel", "publish.wait_ack x Subscribe",
 }
 
 var gcMode string
@@ -547,6 +575,29 @@ func gcGenerate(rng *rand.Rand, id int, forced string) *gcScenario {
 			sc.Subs = append(sc.Subs, gcSubSpec{Topic: sc.Pubs[0].Topic, Behaviour: []int{0}, CancelAt: -1, StartAt: 1})
 		}
 	}
+	switch forced {
+	case "publish.fanout x cancel":
+		// three subscriptions on the publisher's topic; the FIRST registered one is cancelled while the fan-out is held
+		sc.Blocking = false
+		sc.CloseAfter = -1
+		t := sc.Pubs[0].Topic
+		sc.Subs = []gcSubSpec{
+			{Topic: t, Behaviour: []int{0}, CancelAt: -1, CancelOnHook: "gochannel.publish.fanout_start", Drain: true},
+			{Topic: t, Behaviour: []int{0}, CancelAt: -1},
+			{Topic: t, Behaviour: []int{0}, CancelAt: -1},
+		}
+	case "publish.wait_ack x Subscribe":
+		sc.Blocking = true
+		sc.Persistent = true
+		sc.CloseAfter = -1
+		t := sc.Pubs[0].Topic
+		msg += 3
+		sc.Pubs = []gcPubSpec{{Topic: t, Calls: [][]int{{msg - 2, msg - 1, msg}}}}
+		sc.Subs = []gcSubSpec{
+			{Topic: t, Behaviour: []int{0}, CancelAt: -1, SlowUs: 80000},
+			{Topic: t, Behaviour: []int{0}, CancelAt: -1, StartOnHook: "gochannel.publish.wait_ack"},
+		}
+	}
 	if sc.Blocking {
 		// every client program must end in a settle, a cancel or a Close: consumers that leave
 		// messages unsettled are cancelled right after (or the driver's Close releases them)
@@ -613,6 +664,8 @@ type gcD9Result struct {
 	Nested []gcNestedResult `json:"nested"`
 	// non-unique UUIDs: what an early and a late (persistent replay) subscriber received
 	Dup []gcDupResult `json:"dup"`
+	// Subscribe with an already cancelled context, then Close
+	PreCancelled []gcPreCancelResult `json:"pre_cancelled"`
 }
 
 type gcNestedResult struct {
@@ -623,7 +676,7 @@ type gcNestedResult struct {
 
 type gcDupResult struct {
 	Persistent bool     `json:"persistent"`
-	Published  []string `json:"published"` // payloads, in publish order
+	Published  []string `json:"published"` // "uuid|payload", in publish order
 	Early      []string `json:"early"`     // payloads received by a subscriber that existed before
 	Late       []string `json:"late"`      // payloads received by a subscriber created afterwards (persistent only)
 }
@@ -676,7 +729,7 @@ func gcDup(persistent bool) gcDupResult {
 				if !ok {
 					return
 				}
-				*into = append(*into, string(m.Payload))
+				*into = append(*into, m.UUID+"|"+string(m.Payload))
 				m.Ack()
 			case <-time.After(1500 * time.Millisecond):
 				return
@@ -694,7 +747,7 @@ func gcDup(persistent bool) gcDupResult {
 	d1 := make(chan struct{})
 	go collect(early, &res.Early, len(msgs), d1)
 	for _, m := range msgs {
-		res.Published = append(res.Published, string(m.Payload))
+		res.Published = append(res.Published, m.UUID+"|"+string(m.Payload))
 		ps.Publish("t", m)
 	}
 	<-d1
@@ -709,6 +762,55 @@ func gcDup(persistent bool) gcDupResult {
 	closed := make(chan struct{})
 	go func() { ps.Close(); close(closed) }()
 	gcWaited(closed, 3*time.Second)
+	return res
+}
+
+// Subscribe with a context that is ALREADY cancelled, then (later) Close: the subscription is
+// torn down at once (or refused) and Close must still complete; Publish in between must return.
+type gcPreCancelResult struct {
+	Persistent     bool `json:"persistent"`
+	SubscribeOK    bool `json:"subscribe_ok"`
+	ChanClosed     bool `json:"chan_closed"`     // the returned channel (if any) got closed
+	PublishOK      bool `json:"publish_returned"`
+	CloseReturned  bool `json:"close_returned"`
+	SecondSubOK    bool `json:"second_subscribe_ok"` // a normal subscription afterwards still works
+	SecondReceived bool `json:"second_received"`
+}
+
+func gcPreCancelled(persistent bool) gcPreCancelResult {
+	ps := gochannel.NewGoChannel(gochannel.Config{Persistent: persistent}, watermill.NopLogger{})
+	res := gcPreCancelResult{Persistent: persistent}
+	ctx, cancel := context.WithCancel(context.Background())
+	cancel()
+	ch, err := ps.Subscribe(ctx, "t")
+	res.SubscribeOK = err == nil && ch != nil
+	if res.SubscribeOK {
+		done := make(chan struct{})
+		go func() {
+			for range ch {
+			}
+			close(done)
+		}()
+		res.ChanClosed = gcWaited(done, 2*time.Second)
+	} else {
+		res.ChanClosed = true
+	}
+	ch2, err2 := ps.Subscribe(context.Background(), "t")
+	res.SecondSubOK = err2 == nil && ch2 != nil
+	pubDone := make(chan struct{})
+	go func() { ps.Publish("t", gcMakeMsg(1)); close(pubDone) }()
+	res.PublishOK = gcWaited(pubDone, 2*time.Second)
+	if res.SecondSubOK {
+		select {
+		case m := <-ch2:
+			m.Ack()
+			res.SecondReceived = true
+		case <-time.After(2 * time.Second):
+		}
+	}
+	closed := make(chan struct{})
+	go func() { ps.Close(); close(closed) }()
+	res.CloseReturned = gcWaited(closed, 3*time.Second)
 	return res
 }
 
@@ -764,6 +866,7 @@ func cmdGoChanD9(args []string) error {
 	rt.Filter(func(point string, keys []string) bool { return false })
 	res.Nested = []gcNestedResult{gcNested(false), gcNested(true)}
 	res.Dup = []gcDupResult{gcDup(false), gcDup(true)}
+	res.PreCancelled = []gcPreCancelResult{gcPreCancelled(false), gcPreCancelled(true)}
 	return writeJSON(*out, res)
 }
 
